@@ -117,7 +117,7 @@ def rule_nested_prune(ctx):
                 n += 1
                 if c in confirmed:
                     ctx.ob("C11.c", f"{s.name}: replaces {c} and embeds the matched node: nested {c} below it is not visited", False, m.loc(r))
-                    ctx.violation("C11.c", "transforms", s.name, r, m.loc(r),
+                    ctx.violation("C11.c", "transforms", s.name, f"replaces {c} and embeds the matched node", m.loc(r),
                                   f"`{s.name}` replaces a {c} node by a product that embeds the node itself; sqlglot's transform does not "
                                   f"descend below a replaced node, so a {c} nested inside is never rewritten: "
                                   f"OBJECT_CONSTRUCT('a', OBJECT_CONSTRUCT('b', NULL)) keeps \"b\": null")
